@@ -21,6 +21,7 @@ import (
 	"net"
 	"net/http"
 	"net/http/httptest"
+	"os"
 	"sort"
 	"strconv"
 	"strings"
@@ -128,8 +129,9 @@ func gunYAML(kv map[string]string, csvFile string) string {
 			uri += "/" + tmplPart(p)
 		}
 		fmt.Fprintf(&b, "    \"uri\": %s\n", yq(uri))
-		if len(r.pre) > 0 || len(r.xh) > 0 {
+		{
 			b.WriteString("    \"headers\":\n")
+			fmt.Fprintf(&b, "      \"X-C15-Run\": %s\n", yq(runNonce))
 			for _, h := range r.xh {
 				fmt.Fprintf(&b, "      %s: %s\n", yq(h[0]), yq(tmplPart(h[1])))
 			}
@@ -212,7 +214,16 @@ func (in *instance) Report(s *netsample.Sample) {
 	in.add("P~" + esc(s.Tags()) + "~" + strconv.Itoa(s.ProtoCode()) + "~" + e)
 }
 
+// runNonce marks the requests of this process: several harnesses run on one machine and a client of another one
+// (e.g. an HTTP/2 preface "PRI *" of a gRPC client retrying a port it used before) can reach a listener of ours after
+// the kernel has handed the port to us. Such requests are refused and are not part of the observation.
+var runNonce = fmt.Sprintf("%d-%d", os.Getpid(), time.Now().UnixNano())
+
 func (in *instance) ServeHTTP(w http.ResponseWriter, r *http.Request) {
+	if r.Header.Get("X-C15-Run") != runNonce {
+		http.Error(w, "not a request of this run", http.StatusMisdirectedRequest)
+		return
+	}
 	now := time.Now()
 	body, _ := io.ReadAll(r.Body)
 	name := strings.SplitN(strings.TrimPrefix(r.URL.Path, "/"), "/", 2)[0]
